@@ -833,11 +833,19 @@ class Interp:
             if isinstance(e, ast.SetComp):
                 return set(out)
             return out
+        if isinstance(e, ast.DictComp):
+            out = []
+            self._comp(e, 0, dict(loc or {}), globs, clo, out)
+            return dict(out)
         raise AnalysisError(f"model: unsupported expression `{txt(e)[:60]}`")
 
     def _comp(self, e, i, loc, globs, clo, out):
         if i == len(e.generators):
-            out.append(self.ev(e.elt, loc, globs, clo))
+            if isinstance(e, ast.DictComp):
+                out.append((self.ev(e.key, loc, globs, clo),
+                            self.ev(e.value, loc, globs, clo)))
+            else:
+                out.append(self.ev(e.elt, loc, globs, clo))
             return
         g = e.generators[i]
         it = self.ev(g.iter, loc, globs, clo)
